@@ -126,3 +126,114 @@ func ZZ_C16_KillYank() {
 	}
 	rl.Readline()
 }
+
+// ZZ_C16_TwoKills: "after several kills, yank inserts the most recent one". From an arbitrary
+// buffer two kill commands K1, K2 run (the cursor — and the mark for kill-region — is moved
+// to an arbitrary place in between, as movement commands would), then yank / vi-put-before.
+// Asserted: the ring top after K2 is exactly what K2 removed, and the yank inserts exactly
+// that text at the cursor.
+// params: mode, cmd, cmd2, n
+func ZZ_C16_TwoKills() {
+	mode := zzverif.Param("mode")
+	cmd1 := zzverif.Param("cmd")
+	cmd2 := zzverif.Param("cmd2")
+	n := zzverif.ParamInt("n")
+
+	buf := zzverif.Runes("b", n)
+	for _, r := range buf {
+		zzverif.Assume(r > 0 && r < 0x80)
+	}
+	script := &zzverif.Script{}
+	rl := zzSession(script)
+	wait := 0
+	ran1, ran2 := false, false
+	var after1, after2, killed2 []rune
+	pos3 := 0
+	sfx := ""
+	yankCmd := "yank"
+	if mode == keymap.ViCommand {
+		yankCmd = "vi-put-before"
+	}
+	place := func(tag string, cmd string) {
+		length := rl.line.Len()
+		if cmd == "kill-region" {
+			rl.cursor.Set(zzverif.IntRange("mark"+tag, 0, length))
+			rl.cursor.SetMark()
+		}
+		rl.cursor.Set(zzverif.IntRange("pos"+tag, 0, length))
+		if mode == keymap.ViCommand {
+			rl.cursor.CheckCommand()
+		}
+	}
+
+	script.OnWait = func() {
+		switch wait {
+		case 0:
+			rl.line.Set(zzCopy(buf)...)
+			if mode != keymap.Emacs {
+				rl.Keymap.SetMain(mode)
+			}
+			place("1", cmd1)
+			keys := zzKeysFor(rl, mode, cmd1)
+			keys2 := zzKeysFor(rl, mode, cmd2)
+			zzverif.Assume(keys != "" && keys2 != "")
+			orig1 := rl.Keymap.Commands()[cmd1]
+			orig2 := rl.Keymap.Commands()[cmd2]
+			if cmd1 == cmd2 {
+				rl.Keymap.Register(map[string]func(){cmd1: func() {
+					if ran1 {
+						ran2 = true
+					}
+					ran1 = true
+					orig1()
+				}})
+			} else {
+				rl.Keymap.Register(map[string]func(){cmd1: func() { ran1 = true; orig1() }})
+				rl.Keymap.Register(map[string]func(){cmd2: func() { ran2 = true; orig2() }})
+			}
+			script.Chunks = [][]byte{[]byte(keys)}
+		case 1:
+			zzverif.Assume(ran1)
+			after1 = append([]rune(nil), (*rl.line)...)
+			if len(after1) == len(buf) {
+				zzverif.Block() // the first kill removed nothing: not "several kills"
+			}
+			zzverif.Reach("first-kill-removed-text")
+			place("2", cmd2)
+			script.Chunks = append(script.Chunks, []byte(zzKeysFor(rl, mode, cmd2)))
+		case 2:
+			zzverif.Assume(ran2)
+			after2 = append([]rune(nil), (*rl.line)...)
+			killed2 = append([]rune(nil), rl.Buffers.GetKill()...)
+			removed := len(after1) - len(after2)
+			if removed == 0 && zzSameRunes(after1, after2) {
+				zzverif.Block() // the second kill removed nothing
+			}
+			zzverif.Reach("second-kill-removed-text")
+			for _, r := range killed2 {
+				if r == '\n' {
+					sfx = "/killed-text-with-newline" // vi puts such text back linewise (listed finding)
+				}
+			}
+			found := false
+			for i := 0; i+removed <= len(after1) && removed > 0; i++ {
+				if zzSameRunes(after1[:i], after2[:i]) && zzSameRunes(after1[i+removed:], after2[i:]) && zzSameRunes(after1[i:i+removed], killed2) {
+					found = true
+				}
+			}
+			zzverif.Assert(found, "ring-top-is-the-most-recent-kill/"+cmd2+sfx)
+			pos3 = rl.cursor.Pos()
+			script.Chunks = append(script.Chunks, []byte(zzKeysFor(rl, mode, yankCmd)))
+		case 3:
+			zzverif.Reach("yanked")
+			want := append(append(append([]rune(nil), after2[:pos3]...), killed2...), after2[pos3:]...)
+			zzverif.Note("after1", string(after1))
+			zzverif.Note("after2", string(after2))
+			zzverif.Note("afteryank", string(*rl.line))
+			zzverif.Assert(zzSameRunes(want, *rl.line), "yank-inserts-the-most-recent-kill/"+cmd2+sfx)
+			zzverif.Block()
+		}
+		wait++
+	}
+	rl.Readline()
+}
